@@ -113,12 +113,22 @@ class G16:
                 vals = [("s", v) for v in r.sample(["b", "c", "x", "zz", "7", "-1", "b7", ""], n)]
             w["enums"].append({"kind": kind, "vals": vals})
         for ci in range(r.randint(1, 4)):
-            kind = r.choice(["attrs", "dc", "td"])
+            kind = r.choice(["attrs", "attrs", "dc", "dc", "td", "td", "ntup", "ntup"])
+            if kind == "ntup":      # typing.NamedTuple: public field names; half of them have pass-through fields only
+                names = r.sample(["a", "b", "c", "d", "xy"], r.randint(0, 3))
+                easy = r.random() < 0.5
+                fields = [{"name": n, "required": True,
+                           "ty": r.choice(["int", "float", "bool", "bytes", "date", "int"]) if easy
+                           else self.type(w, r.randint(0, 1), max_cls=ci)} for n in names]
+                w["classes"].append({"kind": kind, "fields": fields})
+                continue
             names = r.sample(["a", "b", "c", "d", "_p", "_q", "xy"], r.randint(0, 4))
             fields = []
             for n in names:
                 fields.append({"name": n, "ty": self.type(w, r.randint(0, 2), max_cls=ci),
                                "required": kind != "td" or r.random() < 0.7})
+                if kind == "attrs" and r.random() < 0.35:
+                    fields[-1]["alias"] = attrs_alias(r, n)
             c = {"kind": kind, "fields": fields}
             if kind != "td" and r.random() < 0.3:
                 c["strann"] = True     # annotations are strings (`from __future__ import annotations`)
@@ -140,7 +150,7 @@ class G16:
             return self.union()
         if max_cls > 0:
             ci = r.randrange(max_cls)
-            return ("td" if w["classes"][ci]["kind"] == "td" else "cls", ci)
+            return cls_ref(w, ci)
         return r.choice(LEAVES)
 
     def key_type(self, w):
@@ -263,6 +273,8 @@ class G16:
         if k == "cls":
             c = w["classes"][t[1]]
             return ("I", t[1], [(f["name"], self.value(w, f["ty"], depth - 1)) for f in c["fields"]])
+        if k == "ntc":
+            return ("t", [self.value(w, f["ty"], depth - 1) for f in w["classes"][t[1]]["fields"]])
         if k == "td":
             c = w["classes"][t[1]]
             kvs = [(("s", f["name"]), self.value(w, f["ty"], depth - 1)) for f in c["fields"]
@@ -270,6 +282,60 @@ class G16:
             r.shuffle(kvs)
             return ("d", kvs)
         raise ValueError(t)
+
+
+def attrs_alias(r, n):
+    """an explicit `alias=` of an attrs field: equal to the attribute name (a private name then keeps its underscore
+    in `__init__`) or different from both the name and the default (underscore-stripped) alias"""
+    return n if r.random() < 0.6 else n.lstrip("_") + "_al"
+
+
+def init_name(c, f):
+    """the `__init__` argument of a field"""
+    if c["kind"] != "attrs":
+        return f["name"]
+    return f.get("alias") or f["name"].lstrip("_")
+
+
+def nt_as_tup(w, t):
+    """a NamedTuple type, as the heterogeneous tuple of its field types (what the model is told: see `ty_sx`)"""
+    return ("tup", [f["ty"] for f in w["classes"][t[1]]["fields"]])
+
+
+def cls_ref(w, ci):
+    return ({"td": "td", "ntup": "ntc"}.get(w["classes"][ci]["kind"], "cls"), ci)
+
+
+def reaches_nt(w, t):
+    if isinstance(t, str) or t is None:
+        return False
+    k = t[0]
+    if k == "ntc":
+        return True
+    if k in ("enum", "lit", "nt", "union", "elit"):
+        return False
+    if k in ("tup", "sunion"):
+        return any(reaches_nt(w, x) for x in t[1])
+    if k in MAP_KINDS:
+        return reaches_nt(w, t[1]) or reaches_nt(w, t[2])
+    if k in ("cls", "td"):
+        return any(reaches_nt(w, f["ty"]) for f in w["classes"][t[1]]["fields"])
+    return reaches_nt(w, t[1])
+
+
+def reaches_alias(w, t):
+    if isinstance(t, str) or t is None:
+        return False
+    k = t[0]
+    if k in ("enum", "lit", "nt", "union", "elit"):
+        return False
+    if k in ("tup", "sunion"):
+        return any(reaches_alias(w, x) for x in t[1])
+    if k in MAP_KINDS:
+        return reaches_alias(w, t[1]) or reaches_alias(w, t[2])
+    if k in ("cls", "td", "ntc"):
+        return any(f.get("alias") or reaches_alias(w, f["ty"]) for f in w["classes"][t[1]]["fields"])
+    return reaches_alias(w, t[1])
 
 
 def un_nt(t):
@@ -293,11 +359,29 @@ def real_dt(n):
 
 # ------------------------------------------------------------------------------------------------ wire
 
+HUMAN = [False]     # reports: spell out what the wire form identifies (NamedTuple = tuple of its fields, aliases)
+
+
+def ty_desc(w, t):
+    HUMAN[0] = True
+    try:
+        return ty_sx(w, t)
+    finally:
+        HUMAN[0] = False
+
+
 def ty_sx(w, t):
     t = un_nt(t)
     if isinstance(t, str):
         return t
     k = t[0]
+    if k == "ntc":
+        if HUMAN[0]:
+            return "(" + " ".join(["namedtuple"] + ["(%s %s)" % (terms.esc(f["name"]), ty_sx(w, f["ty"]))
+                                                    for f in w["classes"][t[1]]["fields"]]) + ")"
+        return ty_sx(w, nt_as_tup(w, t))
+    if k == "elit":      # (extended stream only; never sent to the model)
+        return "(" + " ".join(["enum-literal"] + [terms.obj_sx(v) for v in t[1]]) + ")"
     if k == "enum":
         return "(enum %d)" % t[1]
     if k == "lit":
@@ -316,7 +400,9 @@ def ty_sx(w, t):
     if k == "cls":
         c = w["classes"][t[1]]
         return "(" + " ".join(["cls", str(t[1]), "1" if c["kind"] == "dc" else "0"]
-                              + ["(%s %s)" % (terms.esc(f["name"]), ty_sx(w, f["ty"])) for f in c["fields"]]) + ")"
+                              + ["(%s %s%s)" % (terms.esc(f["name"]), ty_sx(w, f["ty"]),
+                                                 (" alias=" + terms.esc(f["alias"])) if HUMAN[0] and f.get("alias") else "")
+                                 for f in c["fields"]]) + ")"
     if k == "td":
         c = w["classes"][t[1]]
         return "(" + " ".join(["td"] + ["(%s %d %s)" % (terms.esc(f["name"]), 1 if f["required"] else 0, ty_sx(w, f["ty"]))
@@ -408,10 +494,14 @@ class R16:
         if c["kind"] == "td":
             return TypedDict(name, {f["name"]: (self.ty(f["ty"]) if f["required"] else NotRequired[self.ty(f["ty"])])
                                     for f in c["fields"]})
+        if c["kind"] == "ntup":
+            return typing.NamedTuple(name, [(f["name"], self.ty(f["ty"])) for f in c["fields"]])
         if c["kind"] == "attrs":
             flds = {}
             for fi, f in enumerate(c["fields"]):
                 kw = {"type": self._ann(ci, fi, f, c)}
+                if f.get("alias"):
+                    kw["alias"] = f["alias"]
                 if "dflt" in f:
                     kw["factory"] = (lambda f=f: self.val(f["dflt"], f["ty"]))
                 if f.get("conv"):
@@ -445,6 +535,8 @@ class R16:
             return self.enums[t[1]]
         if k == "lit":
             return Literal[tuple(leaf_val(v) for v in t[1])]
+        if k == "elit":
+            return Literal[tuple(self.val(v) for v in t[1])]
         if k == "nt":
             return typing.NewType(f"NT16_{self.uid}_{t[1]}", self.ty(t[1]))
         if k == "union":
@@ -479,7 +571,7 @@ class R16:
             return collections.Counter[self.ty(t[1])]
         if k == "opt":
             return Optional[self.ty(t[1])]
-        if k in ("cls", "td"):
+        if k in ("cls", "td", "ntc"):
             return self.classes[t[1]]
         raise ValueError(t)
 
@@ -501,6 +593,9 @@ class R16:
         if tag == "l":
             return [self.val(x, sub) for x in o[1]]
         if tag == "t":
+            if k == "ntc":
+                fs = self.world["classes"][t[1]]["fields"]
+                return self.classes[t[1]](*[self.val(x, f["ty"]) for x, f in zip(o[1], fs)])
             if k == "tup":
                 return tuple(self.val(x, tt) for x, tt in zip(o[1], t[1]))
             return tuple(self.val(x, sub) for x in o[1])
@@ -523,7 +618,7 @@ class R16:
             cl = self.classes[o[1]]
             kw = {}
             for f, (n, v) in zip(c["fields"], o[2]):
-                kw[n.lstrip("_") if c["kind"] == "attrs" else n] = self.val(v, f["ty"])
+                kw[init_name(c, f)] = self.val(v, f["ty"])
             return cl(**kw)
         raise ValueError(o)
 
@@ -564,6 +659,8 @@ class R16:
             return ("F", [self.abs(x) for x in v])
         if cl is dict or cl is collections.Counter:
             return ("d", [(self.abs(k), self.abs(x)) for k, x in v.items()])
+        if cl in self._cls_index and self.world["classes"][self._cls_index[cl]]["kind"] == "ntup":
+            return ("t", [self.abs(x) for x in v])      # (the class is compared by the oracle, `same`)
         if cl in self._cls_index:
             ci = self._cls_index[cl]
             return ("I", ci, [(f["name"], self.abs(getattr(v, f["name"]))) for f in self.world["classes"][ci]["fields"]])
@@ -573,7 +670,7 @@ class R16:
 def member_of(w, t, o):
     """the non-native member of a spill-over union `t` that the value `o` belongs to (None: a native member)"""
     tag = o[0]
-    want = {"l": ("list", "seq", "mseq"), "t": ("tup", "tup*"), "q": ("deque",), "S": ("set", "mset"), "F": ("fset",),
+    want = {"l": ("list", "seq", "mseq"), "t": ("tup", "tup*", "ntc"), "q": ("deque",), "S": ("set", "mset"), "F": ("fset",),
             "d": tuple(MAP_KINDS) + ("counter", "td")}.get(tag, ())
     for m in t[1]:
         if isinstance(m, str):
@@ -629,6 +726,8 @@ def tcanon(w, t, o, sort_d=False):
         return tcanon(w, t[1], o, sort_d)
     if k == "sunion":
         return tcanon(w, member_of(w, t, o), o, sort_d)
+    if k == "ntc":
+        t, k = nt_as_tup(w, t), "tup"
     if k in SEQ_KINDS and tag in ("l", "t", "q"):
         return "(" + " ".join([tag] + [tcanon(w, t[1], x, sort_d) for x in o[1]]) + ")"
     if k in SET_KINDS and tag in ("l", "t", "q", "S", "F"):
@@ -656,6 +755,7 @@ class Hooks:
         self.d = d
         self.n_un = 0
         self.n_st = 0
+        self.n_enum = 0
 
 
 def _sorted_list(it):
@@ -714,7 +814,7 @@ def conv_kwargs(cfg):
 
 def make_conv(mod, cfg, hooks):
     conv = mod.make_converter(**conv_kwargs(cfg))
-    if hooks is not None:
+    if hooks is not None and hooks.d is not None:
         def un_float(v, h=hooks):
             h.n_un += 1
             return v + h.d / 2
@@ -741,6 +841,8 @@ def count_float_leaves(w, t, o, omit=False):
         return 0 if tag == "N" else count_float_leaves(w, t[1], o, omit)
     if k == "sunion":
         return count_float_leaves(w, member_of(w, t, o), o, omit)
+    if k == "ntc":
+        t, k = nt_as_tup(w, t), "tup"
     if k in SEQ_KINDS + SET_KINDS:
         return sum(count_float_leaves(w, t[1], x, omit) for x in o[1])
     if k == "tup":
@@ -769,8 +871,10 @@ def has_union_float(w, t, seen=None):
         return any(un_nt(m) == "float" for m in t[1])
     if k == "sunion":
         return any(un_nt(m) == "float" or has_union_float(w, m) for m in t[1])
-    if k in ("enum", "lit", "nt"):
+    if k in ("enum", "lit", "nt", "elit"):
         return False
+    if k == "ntc":
+        t, k = nt_as_tup(w, t), "tup"
     if k == "tup":
         return any(has_union_float(w, x) for x in t[1])
     if k in MAP_KINDS:
@@ -782,8 +886,15 @@ def has_union_float(w, t, seen=None):
 
 def run_impl(R, fmt, mod, cfg, t, x_abs, xv=None):
     """-> dict(stage, ok, u, data, d, y, exc) — every stage of the real round trip"""
-    hooks = Hooks(cfg["uhook"]) if cfg.get("uhook") is not None else None
+    hooks = Hooks(cfg.get("uhook")) if (cfg.get("uhook") is not None or cfg.get("ehook") is not None) else None
     conv = make_conv(mod, cfg, hooks)
+    if cfg.get("ehook") is not None:
+        # a user hook for one enum class: members are dumped by value (what json / pyyaml do on their own)
+        def un_enum(m, h=hooks):
+            h.n_enum += 1
+            return m.value
+
+        conv.register_unstructure_hook(R.enums[cfg["ehook"]], un_enum)
     T = R.ty(t)
     if xv is None:
         xv = R.val(x_abs, t)
@@ -827,7 +938,15 @@ def oracle(w, cfg, t, x_abs, res):
 def hook_oracle(w, t, x_abs, res):
     """user hooks honoured: each float-typed leaf passes through each hook (called: unstructure, dumps, loads, structure)"""
     h = res["hooks"]
-    if h is None or res["stage"] != "done" or has_union_float(w, t):
+    if h is None or res["stage"] != "done":
+        return None
+    cfg = res.get("cfg", {})
+    if cfg.get("ehook") is not None and not cfg.get("omit"):
+        n = 2 * count_members(x_abs, cfg["ehook"])      # (unstructure, dumps)
+        if h.n_enum != n:
+            return ("hooks", f"user hook of enum {cfg['ehook']} not honoured: ran {h.n_enum}x, expected {n}x "
+                             "(once per member of that class in x and per unstructuring)")
+    if h.d is None or has_union_float(w, t):
         return None
     n = count_float_leaves(w, t, x_abs, bool(res.get("cfg", {}).get("omit")))
     exp_st = n * (1 if "y2exc" in res else 2)
@@ -835,6 +954,19 @@ def hook_oracle(w, t, x_abs, res):
         return ("hooks", f"user float hooks not honoured: {n} float leaves, unstructure hook ran {h.n_un}x (expected {2 * n}), "
                          f"structure hook ran {h.n_st}x (expected {exp_st})")
     return None
+
+
+def count_members(o, ei):
+    tag = o[0]
+    if tag == "e":
+        return int(o[1] == ei)
+    if tag in ("l", "t", "q", "S", "F"):
+        return sum(count_members(x, ei) for x in o[1])
+    if tag == "d":
+        return sum(count_members(k, ei) + count_members(v, ei) for k, v in o[1])
+    if tag == "I":
+        return sum(count_members(v, ei) for _, v in o[2])
+    return 0
 
 
 def check_oracle(w, cfg, t, x_abs, res):
@@ -859,6 +991,10 @@ def subpairs(w, t, o):
         m = member_of(w, t, o)
         if m is not None:
             yield m, o
+        return
+    if k == "ntc":
+        for f, x in zip(w["classes"][t[1]]["fields"], o[1]):
+            yield f["ty"], x
         return
     if k in SEQ_KINDS + SET_KINDS:
         for x in o[1]:
@@ -965,11 +1101,13 @@ def _rt_has_plain_str_enum_key(case, t):
     k = t[0]
     if k in MAP_KINDS:
         return _plain_str_enum(case, t[1]) or _rt_has_plain_str_enum_key(case, t[2])
+    if k == "ntc":
+        t, k = nt_as_tup(case["world"], t), "tup"
     if k == "tup":
         return any(_rt_has_plain_str_enum_key(case, x) for x in t[1])
     if k == "td":
         return any(_rt_has_plain_str_enum_key(case, f["ty"]) for f in case["world"]["classes"][t[1]]["fields"])
-    if k in ("enum", "lit", "union", "cls", "counter", "nt", "sunion"):
+    if k in ("enum", "lit", "union", "cls", "counter", "nt", "sunion", "elit"):
         return False
     return _rt_has_plain_str_enum_key(case, t[1])
 
@@ -986,6 +1124,41 @@ def f20(case):
     return _plain_str_enum(case, kt)
 
 
+NT_ENUMKEY_SIG = "msgspec-namedtuple-identity-over-to-builtins"
+
+
+@framework.finding(NT_ENUMKEY_SIG)
+def f63(case):
+    """msgspec: a NamedTuple whose field hooks are all pass-throughs is left to the encoder (identity) even when a field
+    needs to_builtins: a mapping keyed by a plain str-valued Enum inside it reaches the encoder with member keys"""
+    t = case.get("ty")
+    return (case.get("fmt") == "msgspec" and case.get("minimal") is True and isinstance(t, (list, tuple)) and t[0] == "ntc"
+            and case.get("stage") == "dumps" and case.get("exc") == "TypeError" and _rt_has_plain_str_enum_key(case, t))
+
+
+def nt_enumkey_shape(w, t):
+    """does the type reach a NamedTuple holding (outside classes) a mapping keyed by a plain str-valued Enum?"""
+    if isinstance(t, str) or t is None:
+        return False
+    k = t[0]
+    if k == "ntc":
+        return _rt_has_plain_str_enum_key({"world": w}, t)
+    if k in ("enum", "lit", "nt", "union", "elit"):
+        return False
+    if k in ("tup", "sunion"):
+        return any(nt_enumkey_shape(w, x) for x in t[1])
+    if k in MAP_KINDS:
+        return nt_enumkey_shape(w, t[1]) or nt_enumkey_shape(w, t[2])
+    if k in ("cls", "td"):
+        return any(nt_enumkey_shape(w, f["ty"]) for f in w["classes"][t[1]]["fields"])
+    return nt_enumkey_shape(w, t[1])
+
+
+NT_ENUMKEY_WITNESS = ({"enums": [{"kind": "plain", "vals": [("s", "a")]}],
+                       "classes": [{"kind": "ntup", "fields": [{"name": "a", "ty": ("dict", ("enum", 0), "int"), "required": True}]}]},
+                      ("ntc", 0), ("t", [("d", [(("e", 0, 0), ("i", 1))])]))
+
+
 PROVISIONAL = [
     {"id": "F17", "property": "C16", "kind": "finding", "signature": "json-int-enum-mapping-key",
      "what": "json/msgspec converters: a mapping keyed by an Enum with int values (plain or int mix-in) is dumped with the keys as JSON strings (\"1\") and loads then fails: E(\"1\") is not a valid member"},
@@ -997,6 +1170,8 @@ PROVISIONAL = [
      "what": "json/msgspec converters: a mapping keyed by a Literal with int or bool members comes back with string keys (\"1\", \"true\") that the literal hook rejects (msgspec: the encoder refuses bool keys)"},
     {"id": "F20", "property": "C16", "kind": "finding", "signature": "msgspec-plain-str-enum-mapping-key",
      "what": "msgspec converter: a mapping keyed by a plain Enum with str values whose value type needs a cattrs hook keeps the members as keys, and the msgspec encoder refuses them: dumps raises TypeError"},
+    {"id": "F63", "property": "C16", "kind": "finding", "signature": "msgspec-namedtuple-identity-over-to-builtins",
+     "what": "msgspec converter: namedtuple_unstructure_factory returns identity when every field hook is identity OR to_builtins, so a NamedTuple with a field that needs to_builtins is left to the encoder, which accepts less: NT(a: dict[PlainStrEnum, int]) -> dumps TypeError (Only dicts with str-like or number-like keys), while the same mapping alone or as a class field is handed to to_builtins and round-trips"},
     {"id": "F50", "property": "C16", "kind": "finding", "signature": "msgspec-dataclass-string-annotations",
      "what": "msgspec converter: msgspec_attrs_unstructure_factory resolves string annotations (PEP 563) of attrs classes only; for a dataclass the pass-through test looks up the hook of the *string* 'float' (identity), so the dataclass is handed to to_builtins: user hooks of its field types are skipped on dump but applied on load, attrs classes with private attributes inside it lose the underscore (F8 again, through string annotations)"},
 ]
@@ -1061,6 +1236,10 @@ def obj_or_none(px):
     return None if px == "-" else terms.obj_of_px(px)
 
 
+def eh_sx(cfg):
+    return "" if cfg.get("ehook") is None else " +value hook on enum %d" % cfg["ehook"]
+
+
 def uh_sx(cfg):
     return "-" if cfg.get("uhook") is None else str(cfg["uhook"])
 
@@ -1091,8 +1270,10 @@ def reaches_strann_dc(w, t, kinds=("dc",)):
     if isinstance(t, str) or t is None:
         return False
     k = t[0]
-    if k in ("enum", "lit", "nt", "union"):
+    if k in ("enum", "lit", "nt", "union", "elit"):
         return False
+    if k == "ntc":
+        t, k = nt_as_tup(w, t), "tup"
     if k in ("tup", "sunion"):
         return any(reaches_strann_dc(w, x, kinds) for x in t[1])
     if k in MAP_KINDS:
@@ -1156,6 +1337,8 @@ def one_case(chk, drv, R, w, fmt, mod, cfg, t, x, corr_fail, tag="", model=True)
              "opt:omit_if_default:%d" % bool(cfg.get("omit")), "opt:prefer_attrib_converters:%d" % bool(cfg.get("pac")))
     if reaches_strann_dc(w, t, ("dc", "attrs")):
         chk.note("reaches-string-annotated-class")
+    if reaches_alias(w, t):
+        chk.note("reaches-attrs-field-with-explicit-alias")
     # ---- model
     objs = [x]
     u_abs = d_abs = y_abs = None
@@ -1261,9 +1444,9 @@ def report(chk, R, w, fmt, mod, cfg, t, x, bad, stream=None):
     if not isinstance(t2, str) and t2[0] == "cls" and w["classes"][t2[1]].get("strann"):
         mcase["plain_annotations_pass"] = plain_annotations_pass(w, fmt, mod, cfg, t2, x2)
     opts = opts_sx(cfg)
-    chk.violation(f"C16 oracle [{(stream + ' stream, ') if stream else ''}{fmt}{' +float hooks' if cfg.get('uhook') is not None else ''}"
+    chk.violation(f"C16 oracle [{(stream + ' stream, ') if stream else ''}{fmt}{' +float hooks' if cfg.get('uhook') is not None else ''}{eh_sx(cfg)}"
                   f"{'' if opts == '00-' else ' options=' + opts}] {bad2[1]} "
-                  f"[T={ty_sx(w, t2)} x={terms.canon_sx(x2)[:200]}]", mcase)
+                  f"[T={ty_desc(w, t2)} x={terms.canon_sx(x2)[:200]}]", mcase)
 
 
 def plain_annotations_pass(w, fmt, mod, cfg, t, x):
@@ -1316,6 +1499,20 @@ def run(chk: framework.Check):
             print("NOTE C16: the msgspec converter decides the pass-through of a dataclass on its unresolved string annotations "
                   "(user hooks / private attributes of field types ignored); no known_findings entry `%s`: msgspec cases that "
                   "reach a string-annotated dataclass are skipped until the defect is repaired or recorded" % STRANN_SIG)
+    # ---- msgspec NamedTuples left to the encoder although a field needs to_builtins (NT_ENUMKEY_WITNESS): while the
+    # defect is present and not recorded, msgspec cases of that shape are skipped
+    nt_gate = False
+    if "msgspec" in ran:
+        w0, t0, x0 = NT_ENUMKEY_WITNESS
+        cfg0 = {"detailed": True, "forbid": False, "uhook": None}
+        if check_oracle(w0, cfg0, t0, x0, run_impl(R16(w0), "msgspec", ran["msgspec"], cfg0, t0, x0)) is not None:
+            recorded = any(f.get("signature") == NT_ENUMKEY_SIG for f in chk.known)
+            nt_gate = not recorded
+            chk.note("msgspec-namedtuple-identity-over-to-builtins:defect-present:" + ("recorded" if recorded else "NOT-recorded(cases-skipped)"))
+            if nt_gate:
+                print("NOTE C16: msgspec leaves a NamedTuple with a to_builtins field to the encoder (dict keyed by a plain "
+                      "str-valued Enum inside a NamedTuple: dumps TypeError); no known_findings entry `%s`: msgspec cases of "
+                      "that shape are skipped until the defect is repaired or recorded" % NT_ENUMKEY_SIG)
     n_worlds = 260 if chk.tier == "quick" else 2600
     for wi in range(n_worlds):
         w = G.world()
@@ -1327,7 +1524,7 @@ def run(chk: framework.Check):
         for ti in range(5):
             if ti == 0 and w["classes"]:
                 ci = rng.randrange(len(w["classes"]))
-                t = ("td" if w["classes"][ci]["kind"] == "td" else "cls", ci)
+                t = cls_ref(w, ci)
                 if rng.random() < 0.5:
                     t = (rng.choice(["list", "opt", "tup*", "deque"]), t) if rng.random() < 0.7 else ("dict", "str", t)
             else:
@@ -1347,6 +1544,16 @@ def run(chk: framework.Check):
                         chk.note("skipped:string-annotated-dataclass:msgspec")
                         continue
                     model = False
+                if fmt == "msgspec" and nt_gate and nt_enumkey_shape(w, t):
+                    chk.note("skipped:namedtuple-with-plain-str-enum-keyed-mapping:msgspec")
+                    continue
+                if reaches_nt(w, t):
+                    # the model is told a NamedTuple is the heterogeneous tuple of its field types (`ty_sx`): exact for
+                    # json and pyyaml.  msgspec leaves a NamedTuple with pass-through fields to the library, which
+                    # changes the pass-through decisions of whatever contains it: oracle only there
+                    chk.note("reaches-namedtuple:" + fmt)
+                    if fmt == "msgspec":
+                        model = False
                 one_case(chk, drv, R, w, fmt, ran[fmt], cfg, t, x0, corr_fail, model=model)
     # ---- extended stream (implementation-only oracle; nothing here is covered by the Lean model or the theorems)
     from harness.props import c16_ext
@@ -1368,7 +1575,10 @@ def run(chk: framework.Check):
                          "unstruct_collection_overrides absent/{}/user entries, float user hooks}; "
                          "non-trivial = non-leaf type; distinct by canonical text.  Histogram keys `ext:*` belong to the "
                          "implementation-only oracle stream (spill-over unions mixing native members / NewTypes with classes "
-                         "and collections, classes with defaults and attrs field converters): no model, no theorem")
+                         "and collections, classes with defaults and attrs field converters, Literal types mixing enum members "
+                         "with primitive alternatives, a user value hook on an enum class): no model, no theorem.  Main stream "
+                         "also: attrs fields with explicit aliases (model is alias-blind), typing.NamedTuple classes (the model "
+                         "is told the heterogeneous tuple of the field types; json/pyyaml under model+oracle, msgspec oracle only)")
     chk.assumptions = framework.TRUSTED_BASE + [
         "C16 is partial: the serialisation libraries (json, PyYAML, msgspec) are not modelled; their behaviour is the "
         "hypothesis enc/norm of Preconf/Model.lean, diff-checked against the real library on every generated case",
@@ -1384,8 +1594,10 @@ def uses_nonnative_union(w, t, fmt, _seen=None):
     k = t[0]
     if k == "union":
         return any(un_nt(m) not in NATIVE[fmt] for m in t[1])
-    if k in ("enum", "lit", "nt"):
+    if k in ("enum", "lit", "nt", "elit"):
         return False
+    if k == "ntc":
+        t, k = nt_as_tup(w, t), "tup"
     if k in ("tup", "sunion"):
         return any(uses_nonnative_union(w, x, fmt) for x in t[1] if not isinstance(x, str))
     if k in MAP_KINDS:
@@ -1408,7 +1620,7 @@ def tuple_ify16(o):
                 return (tag, o[1], [(n, tuple_ify16(v)) for n, v in o[2]])
             if tag in ("N", "b", "i", "f", "s", "y", "e", "o"):
                 return tuple(o)
-            if tag in ("enum", "cls", "td"):
+            if tag in ("enum", "cls", "td", "ntc"):
                 return (tag, o[1])
             if tag == "lit":
                 return (tag, [tuple_ify16(v) for v in o[1]])
